@@ -97,6 +97,10 @@ class E:
         self.two_d = fname == "downsample_2d"
 
     def int(self, n: ast.AST) -> str:
+        n = _Sorted().visit(copy.deepcopy(n))
+        return self._int(n)
+
+    def _int(self, n: ast.AST) -> str:
         if isinstance(n, ast.Constant) and isinstance(n.value, int) and n.value >= 0:
             return str(n.value)
         s = ast.unparse(n)
@@ -111,7 +115,7 @@ class E:
         if isinstance(n, ast.BinOp):
             ops = {ast.FloorDiv: "/", ast.Mult: "*", ast.Add: "+", ast.Sub: "-"}
             if type(n.op) in ops:
-                return f"({self.int(n.left)} {ops[type(n.op)]} {self.int(n.right)})"
+                return f"({self._int(n.left)} {ops[type(n.op)]} {self._int(n.right)})"
         raise Untranslatable(f"integer expression `{s}`")
 
     def shape4(self, n: ast.AST) -> str:
@@ -193,7 +197,45 @@ def _is_raise_value_error(body: list[ast.stmt]) -> bool:
             and ast.unparse(body[0].exc.func) == "ValueError")
 
 
-def translate(fn: ast.FunctionDef) -> str:
+def inline_checkers(fn: ast.FunctionDef, module: ast.Module | None) -> ast.FunctionDef:
+    """`_check_x(arg, "Name")` as a statement, where the private module-level helper consists only of
+    `if cond: [msg = ...;] raise ValueError(...)` statements, is replaced by those statements with the parameters
+    substituted (the arguments must be names or constants)"""
+    if module is None:
+        return fn
+    helpers = {n.name: n for n in module.body if isinstance(n, ast.FunctionDef) and n.name.startswith("_")}
+    fn = copy.deepcopy(fn)
+    out = []
+    for st in fn.body:
+        if isinstance(st, ast.Expr) and isinstance(st.value, ast.Call) and isinstance(st.value.func, ast.Name) \
+                and st.value.func.id in helpers and not st.value.keywords:
+            h = helpers[st.value.func.id]
+            hb = [b for b in h.body if not (isinstance(b, ast.Expr) and isinstance(b.value, ast.Constant))]
+            params = [a.arg for a in h.args.args]
+            if (len(params) == len(st.value.args) and all(isinstance(a, (ast.Name, ast.Constant)) for a in st.value.args)
+                    and all(isinstance(b, ast.If) and not b.orelse and _is_raise_value_error(b.body) for b in hb)):
+                env = dict(zip(params, st.value.args))
+                out += [normalize._Subst(env).visit(copy.deepcopy(b)) for b in hb]
+                continue
+        out.append(st)
+    fn.body = out
+    return ast.fix_missing_locations(fn)
+
+
+class _Sorted(ast.NodeTransformer):
+    """integer products / sums with their operands in a fixed (textual) order"""
+
+    def visit_BinOp(self, node: ast.BinOp):
+        self.generic_visit(node)
+        if isinstance(node.op, (ast.Mult, ast.Add)):
+            a, b = node.left, node.right
+            if ast.unparse(a) > ast.unparse(b):
+                return ast.BinOp(left=b, op=node.op, right=a)
+        return node
+
+
+def translate(fn: ast.FunctionDef, module: ast.Module | None = None) -> str:
+    fn = inline_checkers(fn, module)
     name = fn.name
     short = {"downsample_1d": "down1d", "downsample_2d": "down2d", "downsample_2d_flat": "down2dflat"}[name]
     # tuple unpacking of the parameters / the shape: the names become Lean parameters
